@@ -209,6 +209,19 @@ pub fn run(ctx: &Ctx) -> Report {
                             );
                             continue;
                         }
+                        // the other listed optimiser finding (the malformed argument plays no part in it)
+                        let why = crate::c02::attribute(&progs[k].raw_pre, &bad, &pre_outs[k].canonical());
+                        if why.starts_with("clean_up_no_inlines+afterwards") && pre_canon[k] == "abort" {
+                            rep.count("known:afterwards-moves-argument-under-lambda");
+                            comp::fail_shared(
+                                &mut rep,
+                                AFTERWARDS_KEY,
+                                "under some settings the optimiser's last phase moves the evaluation of a failing argument under a lambda (unoptimised programs agree under all 9 settings)",
+                                json!({"source": p.src, "function": f.name, "arguments": argw}),
+                                json!({"outcomes": table, "deviating_setting": settings[k].0, "attribution": why}),
+                            );
+                            continue;
+                        }
                     }
                     rep.fail(
                         &format!("{}:malformed#{}.{}:tracing-changes-outcome", base, ai, mi),
